@@ -120,9 +120,10 @@ func RunSched(bodies []func() string, choices []int, snap func() string) *SchedR
 	count := make([]int, n)
 	rh := make([]uint64, n)
 	type acc struct {
-		tid   int
-		w     bool
-		locks map[string]bool
+		tid    int
+		w      bool
+		locks  map[string]bool
+		inOnce map[string]bool // the sync.Once objects inside whose Do(f) this access happened
 	}
 	seen := map[string][]acc{}
 	// model of the sync objects the threads use through package-level variables: a Lock is enabled only while the mutex is
@@ -132,8 +133,10 @@ func RunSched(bodies []func() string, choices []int, snap func() string) *SchedR
 	inDo := map[string]int{}            // once -> tid currently inside Do
 	onceDone := map[string]bool{}
 	lockset := make([]map[string]bool, n)
+	passedDo := make([]map[string]bool, n) // thread -> the Once objects whose Do has returned in that thread
 	for i := range lockset {
 		lockset[i] = map[string]bool{}
+		passedDo[i] = map[string]bool{}
 	}
 	enabled := func(r req) bool {
 		kind, obj, m := splitSync(r.id)
@@ -188,10 +191,12 @@ func RunSched(bodies []func() string, choices []int, snap func() string) *SchedR
 				inDo[obj] = r.tid
 			}
 		case kind == "sync-ret" && m == "Do":
-			if inDo[obj] == r.tid {
+			if t, ok := inDo[obj]; ok && t == r.tid {
 				delete(inDo, obj)
 				onceDone[obj] = true
 			}
+			// the completion of f happens before the return of every Do: what f wrote is ordered before what this thread does next
+			passedDo[r.tid][obj] = true
 		}
 	}
 	last := -1
@@ -250,8 +255,16 @@ func RunSched(bodies []func() string, choices []int, snap func() string) *SchedR
 				}
 				return false
 			}
+			ordered := func(a map[string]bool) bool {
+				for o := range a {
+					if passedDo[t][o] {
+						return true
+					}
+				}
+				return false
+			}
 			for _, a := range seen[r.id] {
-				if a.tid != t && (a.w || r.w == 1) && !common(a.locks) {
+				if a.tid != t && (a.w || r.w == 1) && !common(a.locks) && !ordered(a.inOnce) {
 					res.Races[r.id] = fmt.Sprintf("thread %d (write=%v) and thread %d (write=%v) both access %s with no common lock held", a.tid, a.w, t, r.w == 1, r.id)
 				}
 			}
@@ -259,7 +272,13 @@ func RunSched(bodies []func() string, choices []int, snap func() string) *SchedR
 			for k := range lockset[t] {
 				ls[k] = true
 			}
-			seen[r.id] = append(seen[r.id], acc{t, r.w == 1, ls})
+			io := map[string]bool{}
+			for o, who := range inDo {
+				if who == t {
+					io[o] = true
+				}
+			}
+			seen[r.id] = append(seen[r.id], acc{t, r.w == 1, ls, io})
 		}
 		count[t]++
 		h := fnv.New64a()
